@@ -340,6 +340,7 @@ class Evaluator:
         self.ext_calls = ext_calls or {}  # dotted -> callable(ev, *args, **kwargs), rule-supplied summaries
         self._in_getattribute = set()
         self.class_stores = {}  # (class fq, attr) -> value assigned at run time (Cls.attr = v): shared by all instances
+        self.tolerance_tests = []  # (node, a, b): isclose-type tests evaluated on symbolic operands
         self.watched = {}  # id(container) -> label: native dicts/lists whose writers are recorded in watch_hits
         self.watch_hits = []  # (label, how, node)
         self.watch_abort = False  # raise WatchedWrite at the first write that changes a watched container
@@ -725,6 +726,7 @@ class Evaluator:
         d = f.dotted
         h = self.ext_calls.get(d) or _EXT_CALLS.get(d)
         if h is not None:
+            self.current_call_node = node
             return h(self, *args, **kwargs)
         top = d.split(".")[0]
         if top in ("LeProHQ", "adani"):
@@ -2009,7 +2011,46 @@ def _binom(ev, n, k):
     return math.comb(int(n), int(k))
 
 
+def _isclose(ev, a, b, rel_tol=None, abs_tol=None, rtol=None, atol=None, **kw):
+    """numpy.isclose / math.isclose: |a - b| <= atol + rtol |b| (numpy defaults 1e-5, 1e-8; math: max(rel|a|, rel|b|, abs)).
+    Concrete operands are decided exactly. For a symbolic operand the test holds on a set of inputs of positive measure
+    and fails on the rest: it is folded with the generic outcome (False unless the operands are identically equal) and
+    *recorded* in ev.tolerance_tests, so that a rule whose property quantifies over all inputs can report that a quantity is
+    compared within a tolerance instead of exactly."""
+    rt = rtol if rtol is not None else (rel_tol if rel_tol is not None else Fraction(1, 10**5))
+    at = atol if atol is not None else (abs_tol if abs_tol is not None else Fraction(1, 10**8))
+
+    def one(x, y):
+        x, y = num_norm(x), num_norm(y)
+        if isinstance(x, Rat) or isinstance(y, Rat):
+            if A.equal(A.to_rat(x), A.to_rat(y), tol=Fraction(0)):
+                return True
+            ev.tolerance_tests.append((getattr(ev, "current_call_node", None), x, y))
+            return False
+        if is_inf(x) or is_inf(y):
+            return x == y
+        return abs(Fraction(x) - Fraction(y)) <= Fraction(at) + Fraction(rt) * abs(Fraction(y))
+
+    if isinstance(a, Arr) or isinstance(b, Arr):
+        aa = a if isinstance(a, Arr) else None
+        bb = b if isinstance(b, Arr) else None
+        if aa is not None and bb is not None:
+            return aa._zip(bb, one)
+        return (aa or bb)._map((lambda x: one(x, b)) if aa is not None else (lambda y: one(a, y)))
+    return one(a, b)
+
+
+def _allclose(ev, a, b, **kw):
+    r = _isclose(ev, a, b, **kw)
+    if isinstance(r, Arr):
+        return all(bool(x) for x in r.flat())
+    return bool(r)
+
+
 _EXT_CALLS = {
+    "numpy.isclose": _isclose,
+    "math.isclose": _isclose,
+    "numpy.allclose": _allclose,
     "numpy.log": _np_elementwise(_f_log),
     "math.log": _np_elementwise(_f_log),
     "numpy.sqrt": _np_elementwise(_f_sqrt),
